@@ -510,6 +510,18 @@ pub fn main(args: &[String]) {
                     }
                 }
             }
+            if op["op"] != "glyph" {
+                // the same table keyed patch through PatchGroup with the caller's bookkeeping and the same decoder fault
+                let i = op["id"].as_u64().unwrap() as usize;
+                let tp = &tps[i - 1];
+                if patch_info(&font, &base.abs, tp["src"].as_str().unwrap(), tp["entry"].as_u64().unwrap() as usize).is_ok() {
+                    hi_level += 1;
+                    if let Err(e) = tk_group_path(&cur, &base, tp, &tk_bytes[i - 1], fail, done as usize, exp_ok, new_bytes.as_deref()) {
+                        rep.violation(&e, hist(&parent));
+                        continue;
+                    }
+                }
+            }
             if key != *post {
                 nontrivial += 1;
             }
@@ -672,6 +684,60 @@ fn group_path(cur: &[u8], base: &Base, gps: &[Value], gk_bytes: &[Vec<u8>], ids:
                     let (x, y) = (a.table_data(r.tag()).map(|d| d.as_bytes().to_vec()), b.table_data(r.tag()).map(|d| d.as_bytes().to_vec()));
                     if r.tag() != Tag::new(b"head") && x != y {
                         return Err(format!("table {} differs between group order and model order", r.tag()));
+                    }
+                }
+            }
+            Ok(())
+        }
+    }
+}
+
+/// One table keyed (invalidating) patch through PatchGroup::apply_next_patches: on failure the caller's bookkeeping is as
+/// before, on success the URI is Applied and the tables are those of the low level call.
+fn tk_group_path(cur: &[u8], base: &Base, tp: &Value, patch: &[u8], fail: usize, kind: usize, exp_ok: bool, low_level: Option<&[u8]>) -> Result<(), String> {
+    let font = FontRef::new(cur).unwrap();
+    let (t, e) = entry_of(&base.abs, tp["src"].as_str().unwrap(), tp["entry"].as_u64().unwrap() as usize);
+    let uri = uri_string(&t.tmpl, e.id);
+    let def = AbsDef { cps: e.cps.clone(), feats: vec![], ds: vec![], fall: true, dall: true, inverted: false };
+    let group = PatchGroup::select_next_patches(font, &def.realise()).map_err(|e| format!("select_next_patches: {e}"))?;
+    let uris: Vec<String> = group.uris().map(|s| s.to_string()).collect();
+    if !uris.contains(&uri) {
+        return Ok(()); // the selection prefers another invalidating patch in this state: not this edge
+    }
+    let mut status: HashMap<String, UriStatus> = HashMap::new();
+    for u in &uris {
+        // only the patch of this edge is available; any other URI of the group stays unfetched (empty, never valid)
+        status.insert(u.clone(), UriStatus::Pending(if *u == uri { patch.to_vec() } else { vec![] }));
+    }
+    status.insert("unrelated".to_string(), UriStatus::Pending(vec![1, 2, 3]));
+    if uris.len() != 1 {
+        return Ok(());
+    }
+    let decoder = FaultyDecoder { fail_at: fail, calls: Cell::new(0), kind };
+    let r = guarded(|| group.apply_next_patches_with_decoder(&mut status, &decoder)).map_err(|p| format!("apply_next_patches panicked: {p}"))?;
+    match r {
+        Err(e) => {
+            if exp_ok {
+                return Err(format!("apply_next_patches failed on a table keyed patch ({e}), specification says it succeeds"));
+            }
+            if status.get(&uri) != Some(&UriStatus::Pending(patch.to_vec())) || status.get("unrelated") != Some(&UriStatus::Pending(vec![1, 2, 3])) {
+                return Err(format!("apply_next_patches failed on the table keyed patch {uri} but the caller's bookkeeping changed"));
+            }
+            Ok(())
+        }
+        Ok(bytes) => {
+            if !exp_ok {
+                return Err("apply_next_patches succeeded on a table keyed patch, specification says it must fail".into());
+            }
+            if status.get(&uri) != Some(&UriStatus::Applied) || status.get("unrelated") != Some(&UriStatus::Pending(vec![1, 2, 3])) {
+                return Err(format!("{uri} not marked Applied after success (or an unrelated entry changed)"));
+            }
+            if let Some(ll) = low_level {
+                let (a, b) = (FontRef::new(&bytes).map_err(|e| e.to_string())?, FontRef::new(ll).unwrap());
+                for r in b.table_directory.table_records() {
+                    let (x, y) = (a.table_data(r.tag()).map(|d| d.as_bytes().to_vec()), b.table_data(r.tag()).map(|d| d.as_bytes().to_vec()));
+                    if r.tag() != Tag::new(b"head") && x != y {
+                        return Err(format!("table {} differs between PatchGroup and the low level call", r.tag()));
                     }
                 }
             }
